@@ -22,6 +22,8 @@ Inputs that are *not* modelled but given to the model: what the message object o
 decoded as latin-1 by the code, which keeps the values). Code points are `Nat`. Text types are the integer
 constants of the source (`Gen.C20.XML_APPLICATION_TYPE` …), compared with `==` as the code does.
 -/
+deriving instance DecidableEq for Except
+
 namespace CssVerif.Encutils
 open CssVerif CssVerif.Proto CssVerif.Gen
 
@@ -244,30 +246,55 @@ def chain (tt : Nat) (http xml metaE byMediaType tryEnc : Option Cps) : Option C
     if !truthy e then byMediaType else e
   else e
 
+/-- the document that is looked at (`:566-575`): the given text, else what `response.read()` returns;
+`OSError` is swallowed (the text stays `None` and becomes `''`); without a response `None.read()` raises -/
+def effText (response : Option Resp) (text : Option Cps) : Except Err Cps :=
+  match text, response with
+  | some t, _ => .ok t
+  | none, some r => .ok (r.body.getD [])
+  | none, none => .error .attributeError
+
+/-- `(http_media_type, http_encoding)` (`:584-585`) -/
+def httpOf : Option Resp → Option Cps × Option Cps
+  | some r => getHTTPInfo r
+  | none => (none, none)
+
+/-- the text type (`:586-589`) -/
+def typeOf (response : Option Resp) (text : Cps) : Nat :=
+  match response with
+  | some r => textTypeByMediaType (getHTTPInfo r).1
+  | none => textTypeOfText text
+
+/-- `xml_encoding` (`:592-603`): two independent `if`s, the second one overwrites -/
+def xmlOf (tt : Nat) (text : Cps) : Except Err (Option Cps) :=
+  match (if tt == C20.XML_APPLICATION_TYPE then sniffCaught text true else .ok none) with
+  | .error e => .error e
+  | .ok x1 => if tt == C20.HTML_TEXT_TYPE then sniffCaught text false else .ok x1
+
+/-- `(meta_media_type, meta_encoding)` (`:606-607`) -/
+def metaOf (tt : Nat) (metaRaw : MetaRaw) : Except Err (Option Cps × Option Cps) :=
+  if tt == C20.HTML_TEXT_TYPE || tt == C20.TEXT_TYPE then getMetaInfo metaRaw else .ok (none, none)
+
+/-- `:611-679` -/
+def assemble (tt : Nat) (http : Option Cps × Option Cps) (xml : Option Cps) (metaI : Option Cps × Option Cps)
+    (tryEnc : Option Cps) : Info :=
+  { encoding := chain tt http.2 xml metaI.2 (encodingByMediaType http.1) tryEnc,
+    mismatch := differ http.2 xml || differ http.2 metaI.2 || differ xml metaI.2,
+    httpMediaType := http.1, httpEncoding := http.2,
+    metaMediaType := metaI.1, metaEncoding := metaI.2, xmlEncoding := xml }
+
 /-- `getEncodingInfo(response, text)` (`:566-679`); `url` and the log are not modelled -/
 def getEncodingInfo (response : Option Resp) (text : Option Cps) (metaRaw : MetaRaw) (tryEnc : Option Cps) :
-    Except Err Info := do
-  -- :566-575
-  let text ← match text, response with
-    | some t, _ => pure (some t)
-    | none, some r => pure r.body                 -- OSError is swallowed, text stays None
-    | none, none => throw Err.attributeError      -- `None.read()`
-  let text := text.getD []
-  -- :584-589
-  let http := match response with
-    | some r => getHTTPInfo r
-    | none => (none, none)
-  let tt := match response with
-    | some _ => textTypeByMediaType http.1
-    | none => textTypeOfText text
-  -- :592-603
-  let xml1 ← if tt == C20.XML_APPLICATION_TYPE then sniffCaught text true else pure none
-  let xml ← if tt == C20.HTML_TEXT_TYPE then sniffCaught text false else pure xml1
-  -- :606-607
-  let metaI ← if tt == C20.HTML_TEXT_TYPE || tt == C20.TEXT_TYPE then getMetaInfo metaRaw else pure (none, none)
-  let enc := chain tt http.2 xml metaI.2 (encodingByMediaType http.1) tryEnc
-  let mismatch := differ http.2 xml || differ http.2 metaI.2 || differ xml metaI.2
-  pure { encoding := enc, mismatch := mismatch, httpMediaType := http.1, httpEncoding := http.2,
-         metaMediaType := metaI.1, metaEncoding := metaI.2, xmlEncoding := xml }
+    Except Err Info :=
+  match effText response text with
+  | .error e => .error e
+  | .ok text =>
+    let tt := typeOf response text
+    match xmlOf tt text with
+    | .error e => .error e
+    | .ok xml =>
+      match metaOf tt metaRaw with
+      | .error e => .error e
+      | .ok metaI => .ok (assemble tt (httpOf response) xml metaI tryEnc)
 
 end CssVerif.Encutils
